@@ -13,8 +13,13 @@
 (*  (c) a refresh of the remote signer's accounts or of the validator set that returns nothing    *)
 (*      never wipes what is already known.                                                        *)
 (*                                                                                                *)
-(* Actions: Configure (New), Refresh (refreshAccounts; refreshValidators - one call of the code), *)
-(* Query (ValidatingAccountsForEpoch, SyncCommitteeAccountsForEpoch and their ByIndex forms).     *)
+(* The account manager and the validators manager are LONG-LIVED INSTANCES; a behaviour is a      *)
+(* history of calls on them (see "The managers" below).  Actions: Configure (New: a new pair of   *)
+(* instances), RefreshAccountsTo / RefreshValidators (the two parts of the periodic refresh job,  *)
+(* with independent outcomes; RefreshTo = both as one step), Query (ValidatingAccountsForEpoch,   *)
+(* SyncCommitteeAccountsForEpoch and their ByIndex forms, with nothing in between), QueryCall /   *)
+(* QueryReturn (the same with other calls in between).  spec/AccountsCtl.tla: control designs     *)
+(* that are right on fresh instances and must be rejected over histories.                         *)
 EXTENDS Integers, Sequences, FiniteSets, TLC
 
 CONSTANTS Alphabet,     \* characters of account names, as one-character strings
@@ -158,30 +163,59 @@ WellFormed(r) ==
     /\ r.act = FFE => r.exit = FFE
 
 -----------------------------------------------------------------------------
-(* The managers.                                                                                  *)
+(* The managers: TWO LONG-LIVED INSTANCES and the HISTORY of calls on them.                       *)
+(*                                                                                                *)
+(* The account manager (services/accountmanager/{wallet,dirk}) and the validators manager it is   *)
+(* given (services/validatorsmanager/standard) are created once (Configure) and then live for the *)
+(* whole run of Vouch.  A behaviour is a history of calls on that one pair of instances:          *)
+(*   - Refresh, a periodic scheduler job ("Refresh accounts"), in two parts with their own,       *)
+(*     independent outcomes: the accounts part (what the wallets / the remote signer offer now:   *)
+(*     anything, including LESS than before) and the validators part (the beacon node answers,    *)
+(*     fails, or answers with nothing);                                                           *)
+(*   - the four queries, called by the duty jobs (attester, proposer, sync committee ...) that the *)
+(*     scheduler runs NEXT TO the refresh job: a query may run between the two parts of a refresh *)
+(*     and a refresh may run in full while a query is under way (QueryCall / QueryReturn).        *)
+(*                                                                                                *)
+(* Persistent is the state the property itself makes persistent; the reply to every query of the  *)
+(* history is a function of the query's own arguments and of Persistent during the call - nothing *)
+(* else that earlier calls left behind may show (ExactlyActive is stated for EVERY query).        *)
+(* vals is the validators manager's table: it is NOT restricted to the known accounts - a table   *)
+(* kept through a failed / empty refresh still holds the validators of accounts that are no       *)
+(* longer known, and a request without keys is answered with every validator of the chain.        *)
 VARIABLES mgr,     \* "wallet" | "dirk"
           cfg,     \* sequence of specifiers
-          known,   \* accounts the manager holds: set of names <<wallet, account>>
-          vals,    \* the validators manager's table: function from a set of names to records
+          known,   \* account manager instance: the accounts it holds, set of names <<wallet, account>>
+          vals,    \* validators manager instance: its table, function from a set of names to records
+          ref,     \* the refresh job: idle, or between its accounts part and its validators part
+          open,    \* a query under way (called, not yet returned) with what it may have seen
           last     \* last reply (observation only)
 
-vars == <<mgr, cfg, known, vals, last>>
+vars == <<mgr, cfg, known, vals, ref, open, last>>
+Persistent == <<mgr, cfg, known, vals>>
 
 NoVals == [n \in {} |-> 0]
 NoReply == [op |-> "none"]
+Idle == [st |-> "idle"]
+Mid == [st |-> "mid"]
+NoOpen == [st |-> "none"]
 
 Init ==
     /\ mgr = "wallet"
     /\ cfg = <<>>
     /\ known = {}
     /\ vals = NoVals
+    /\ ref = Idle
+    /\ open = NoOpen
     /\ last = NoReply
 
+\* a new pair of instances
 Configure(m, c) ==
     /\ mgr' = m
     /\ cfg' = c
     /\ known' = {}
     /\ vals' = NoVals
+    /\ ref' = Idle
+    /\ open' = NoOpen
     /\ last' = NoReply
 
 \* what a refresh of the accounts may leave behind, given what the wallets offer now.
@@ -204,48 +238,120 @@ ValsAfter(m, old, k, out) ==
     ELSE IF Returned(k, out) = {} THEN old             \* (c) nothing received: keep
     ELSE [n \in Returned(k, out) |-> out.recs[n]]
 
+\* a query under way sees whatever the instances hold at some moment of the call
+Saw(o, k, v) == IF o.st = "open" THEN [o EXCEPT !.ks = @ \cup {k}, !.vs = @ \cup {v}] ELSE o
+
+\* Refresh, accounts part (refreshAccounts)
+RefreshAccountsTo(offer, k) ==
+    /\ ref = Idle
+    /\ k \in AccountsAfter(mgr, cfg, known, offer)
+    /\ known' = k
+    /\ ref' = Mid
+    /\ open' = Saw(open, k, vals)
+    /\ last' = NoReply
+    /\ UNCHANGED <<mgr, cfg, vals>>
+
+\* Refresh, validators part (refreshValidators -> RefreshValidatorsFromBeaconNode)
+RefreshValidators(out) ==
+    /\ ref = Mid
+    /\ vals' = ValsAfter(mgr, vals, known, out)
+    /\ ref' = Idle
+    /\ open' = Saw(open, known, vals')
+    /\ last' = NoReply
+    /\ UNCHANGED <<mgr, cfg, known>>
+
+\* the whole refresh with nothing in between (the two parts as one step)
 RefreshTo(offer, out, k) ==
+    /\ ref = Idle
     /\ k \in AccountsAfter(mgr, cfg, known, offer)
     /\ known' = k
     /\ vals' = ValsAfter(mgr, vals, k, out)
+    /\ open' = Saw(Saw(open, k, vals), k, vals')
     /\ last' = NoReply
-    /\ UNCHANGED <<mgr, cfg>>
+    /\ UNCHANGED <<mgr, cfg, ref>>
 
 Refresh(offer, out) == \E k \in AccountsAfter(mgr, cfg, known, offer) : RefreshTo(offer, out, k)
 
-\* replies: set of <<validator index, name>>
+\* replies: set of <<validator index, name>>.  k: accounts held, v: the validators manager's table.
+\* Only validators of HELD accounts count (Holders), whatever else the table holds; idxs (by-index forms)
+\* may name anything: validators of others, of accounts no longer held, of nobody.
 Holders(k, v) == k \cap DOMAIN v
+ByIndexKinds == {"validating_by_index", "sync_by_index"}
+ValidatingKinds == {"validating", "validating_by_index"}
+Kinds == {"validating", "sync"} \cup ByIndexKinds
+PlainOf(kind) == IF kind \in ValidatingKinds THEN "validating" ELSE "sync"
+
 ReplyFor(kind, e, idxs, k, v) ==
-    LET states == IF kind \in {"validating", "validating_by_index"} THEN ValidatingStates ELSE SyncStates
-        byIdx  == kind \in {"validating_by_index", "sync_by_index"}
+    LET states == IF kind \in ValidatingKinds THEN ValidatingStates ELSE SyncStates
+        byIdx  == kind \in ByIndexKinds
     IN {<<v[n].index, n>> : n \in {m \in Holders(k, v) :
                                       /\ StateAt(v[m], e) \in states
                                       /\ byIdx => v[m].index \in idxs}}
 
+QueryRec(kind, e, idxs, reply, ks, vs) ==
+    [op |-> "query", kind |-> kind, epoch |-> e, idxs |-> idxs, reply |-> reply, ks |-> ks, vs |-> vs]
+
+\* a query with nothing in between call and return; possible at any point of the history, also
+\* between the two parts of a refresh and while another query is under way
 Query(kind, e, idxs) ==
-    /\ last' = [op |-> "query", kind |-> kind, epoch |-> e, idxs |-> idxs,
-                reply |-> ReplyFor(kind, e, idxs, known, vals)]
-    /\ UNCHANGED <<mgr, cfg, known, vals>>
+    /\ last' = QueryRec(kind, e, idxs, ReplyFor(kind, e, idxs, known, vals), {known}, {vals})
+    /\ UNCHANGED <<mgr, cfg, known, vals, ref, open>>
+
+\* a query that other calls overlap: call ...
+QueryCall(kind, e, idxs) ==
+    /\ open = NoOpen
+    /\ open' = [st |-> "open", kind |-> kind, epoch |-> e, idxs |-> idxs, ks |-> {known}, vs |-> {vals}]
+    /\ UNCHANGED <<mgr, cfg, known, vals, ref, last>>
+
+\* ... and return: the reply is exact for accounts and a table the instances held during the call
+Permitted(o) == {ReplyFor(o.kind, o.epoch, o.idxs, k, v) : k \in o.ks, v \in o.vs}
+
+QueryReturnWith(reply) ==
+    /\ open.st = "open"
+    /\ reply \in Permitted(open)
+    /\ last' = QueryRec(open.kind, open.epoch, open.idxs, reply, open.ks, open.vs)
+    /\ open' = NoOpen
+    /\ UNCHANGED <<mgr, cfg, known, vals, ref>>
+
+QueryReturn == open.st = "open" /\ \E reply \in Permitted(open) : QueryReturnWith(reply)
 
 -----------------------------------------------------------------------------
-(* Invariants.                                                                                    *)
+(* Invariants.  All of them speak about the reply to the query at hand, whatever came before it   *)
+(* in the history of the two instances.                                                           *)
 \* (a) only configured accounts are ever held
 OnlyConfigured == \A n \in known : AdmittedBy(cfg, n)
 
 \* (b) a reply is exactly the known accounts whose validator is in the window, under its own index
+\* (stated with the property's windows, while the actions use the beacon-API state machine)
+WindowReply(kind, e, idxs, k, v) ==
+    LET want(r) == IF kind \in ValidatingKinds THEN ValidatingByWindow(r, e) ELSE SyncByWindow(r, e)
+    IN {<<v[n].index, n>> : n \in {m \in k \cap DOMAIN v :
+                                       /\ want(v[m])
+                                       /\ kind \in ByIndexKinds => v[m].index \in idxs}}
+
 ExactlyActive ==
     last.op = "query" =>
-        LET byIdx == last.kind \in {"validating_by_index", "sync_by_index"}
-            want(r) == IF last.kind \in {"validating", "validating_by_index"}
-                       THEN ValidatingByWindow(r, last.epoch) ELSE SyncByWindow(r, last.epoch)
-        IN last.reply = {<<vals[n].index, n>> : n \in {m \in known \cap DOMAIN vals :
-                                                          /\ want(vals[m])
-                                                          /\ byIdx => vals[m].index \in last.idxs}}
+        \E k \in last.ks, v \in last.vs : last.reply = WindowReply(last.kind, last.epoch, last.idxs, k, v)
+
+\* (b) every entry of a reply is an account the manager held during the call - never a missing account
+\* (a nil entry), never somebody else's validator - ...
+NoStrangers == last.op = "query" => \A p \in last.reply : p[2] \in UNION last.ks
+
+\* ... under the index the validators manager has for it, and a by-index reply only names what was asked
+RightIndex ==
+    last.op = "query" =>
+        \A p \in last.reply : /\ \E v \in last.vs : p[2] \in DOMAIN v /\ v[p[2]].index = p[1]
+                              /\ last.kind \in ByIndexKinds => p[1] \in last.idxs
+
+\* (b) the by-index forms agree with the plain ones restricted to the indices asked for - as a law of
+\* the reply function (MC_Accounts checks it in every reachable state for every index set of the model)
+ByIndexAgreesFor(kind, e, idxs, k, v) ==
+    ReplyFor(kind, e, idxs, k, v) = {p \in ReplyFor(PlainOf(kind), e, {}, k, v) : p[1] \in idxs}
 
 \* (c) as an action property: a refresh that fetches nothing wipes nothing.  "Fetches nothing" is judged
 \* on what the step leaves: the remote signer's accounts never go from something to nothing, the
 \* validator table never goes from something to nothing.
-\* (Configure starts a new service instance and is exempted where it occurs.)
+\* (Configure starts a new pair of instances and is exempted where it occurs.)
 NeverWipedStep ==
     /\ (mgr = "dirk" /\ known # {}) => known' # {}
     /\ (DOMAIN vals # {}) => DOMAIN vals' # {}
